@@ -126,11 +126,11 @@ TypeOf(x, C, P) ==
     [] e = "asg" -> IF x.x \in DOMAIN C.G /\ C.G[x.x].asg /\ Fits(TypeOf(x.v, C, P), C.G[x.x].t) THEN C.G[x.x].t ELSE ERR
     [] e = "let" -> IF Fits(TypeOf(x.v, C, P), x.t) THEN TypeOf(x.body, BindV(C, x.x, x.t, TRUE), P) ELSE ERR
     \* several values: <<"tup", <<t1, .., tn>>>>; a multiple assignment needs n distinct assignable variables of fitting types
-    \* [body for x in src | cond] : List(T) where body : T; x is a constant of the element type (SI for a segment lo..hi)
+    \* [body for x in src | cond] : List(T) where body : T; x is a constant of the element type (SI for a segment lo..hi; src a list or a generator)
     [] e = "collect" ->
          LET et == IF x.src.e = "range"
                    THEN (IF Fits(TypeOf(x.src.lo, C, P), SI) /\ Fits(TypeOf(x.src.hi, C, P), SI) THEN SI ELSE ERR)
-                   ELSE LET st == TypeOf(x.src, C, P) IN IF Ok(st) /\ st[1] = "list" THEN st[2] ELSE ERR
+                   ELSE LET st == TypeOf(x.src, C, P) IN IF Ok(st) /\ st[1] \in {"list", "gen"} THEN st[2] ELSE ERR
              C1 == BindV(C, x.x, et, FALSE)
          IN IF Ok(et) /\ (x.cond.e = "none" \/ Fits(TypeOf(x.cond, C1, P), BOOL))
                /\ x.t[1] = "list" /\ Fits(TypeOf(x.body, C1, P), x.t[2])
